@@ -95,6 +95,9 @@ pub struct History {
 
 const SCALARS: &[&str] = &["V0", "V1", "V2", "V3"];
 const PREFIXED: &[&str] = &["UIDX", "LINENO2", "BASH_FOO", "PPID_", "EUID2", "SHELLOPTS_X", "_V", "v0"];
+/// everyday names that a carrier written in bash is tempted to use for its own locals
+/// (`__scrut_persist_state` has `local code=$?`): the user's variables of that name must carry too
+const TEMPLATE_LIKE: &[&str] = &["code", "line", "name", "status", "i"];
 const INTS: &[&str] = &["I0", "I1"];
 const LOWERS: &[&str] = &["L0"];
 const UPPERS: &[&str] = &["U0"];
@@ -113,12 +116,15 @@ const SHOPT_OPTS: &[&str] = &[
     "nocaseglob",
     "lastpipe",
     "inherit_errexit",
+    // the carrier itself runs `shopt -s expand_aliases` (as does the reference shell, first thing):
+    // a user's `shopt -u expand_aliases` has to survive that
+    "expand_aliases",
 ];
 const DIRS: &[&str] = &["d1", "d 2", "sub dir", "x", "ü"];
 
 fn var_names() -> Vec<&'static str> {
     let mut v = vec![];
-    for p in [SCALARS, PREFIXED, INTS, LOWERS, UPPERS, READONLYS, ARRAYS, ASSOCS] {
+    for p in [SCALARS, PREFIXED, TEMPLATE_LIKE, INTS, LOWERS, UPPERS, READONLYS, ARRAYS, ASSOCS] {
         v.extend_from_slice(p);
     }
     v
@@ -212,6 +218,8 @@ fn value_class(v: &str) -> String {
 fn name_class(n: &str) -> &'static str {
     if PREFIXED.contains(&n) {
         "pfx"
+    } else if TEMPLATE_LIKE.contains(&n) {
+        "tmpl"
     } else if n.contains('-') || n.contains('.') {
         "dashed"
     } else {
@@ -313,6 +321,7 @@ impl Op {
     pub fn class(&self) -> &'static str {
         match self {
             Op::Set { name, .. } if name_class(name) == "pfx" => "var.pfx",
+            Op::Set { name, .. } if name_class(name) == "tmpl" => "var.tmpl",
             Op::Set { .. } => "var.scalar",
             Op::Export { .. } | Op::Unexport { .. } => "var.export",
             Op::Unset { .. } => "var.unset",
@@ -829,7 +838,9 @@ impl Minimiser<'_> {
 
 fn signature(key: &str, h: &History) -> String {
     let tags: BTreeSet<String> = h.tags().into_iter().collect();
-    format!("C12/{}/{{{}}}", kind_of(key), tags.into_iter().collect::<Vec<_>>().join(","))
+    // a divergence that needs no op at all is named after the section it shows in
+    let at = if tags.is_empty() && key != kind_of(key) { format!("@{key}") } else { String::new() };
+    format!("C12/{}/{{{}}}{at}", kind_of(key), tags.into_iter().collect::<Vec<_>>().join(","))
 }
 
 thread_local! {
@@ -892,7 +903,7 @@ fn gen_op(rng: &mut Rng, m: &mut Model, risky: &Risky) -> Op {
             }
             2 => Op::Unexport { name: rng.pick(SCALARS).to_string() },
             3 => {
-                let pools: &[&[&str]] = &[SCALARS, SCALARS, PREFIXED, INTS, ARRAYS, ASSOCS, LOWERS];
+                let pools: &[&[&str]] = &[SCALARS, SCALARS, PREFIXED, TEMPLATE_LIKE, INTS, ARRAYS, ASSOCS, LOWERS];
                 let pool = *rng.pick(pools);
                 Op::Unset { name: rng.pick(pool).to_string() }
             }
@@ -902,7 +913,10 @@ fn gen_op(rng: &mut Rng, m: &mut Model, risky: &Risky) -> Op {
                 2 => Op::Attr { name: LOWERS[0].into(), attr: "l".into(), val: rng.pick(CASE_VALUES).to_string() },
                 _ => Op::Attr { name: UPPERS[0].into(), attr: "u".into(), val: rng.pick(CASE_VALUES).to_string() },
             },
-            5 => Op::Set { name: rng.pick(PREFIXED).to_string(), val: pick_value(rng) },
+            5 => {
+                let pool = if rng.chance(2, 5) { TEMPLATE_LIKE } else { PREFIXED };
+                Op::Set { name: rng.pick(pool).to_string(), val: pick_value(rng) }
+            }
             6 => {
                 let name = rng.pick(ARRAYS).to_string();
                 match rng.below(5) {
@@ -1116,6 +1130,7 @@ impl Monitor for C12 {
             ("probed:var.unset".into(), f(50, 750)),
             ("probed:var.attr".into(), f(40, 600)),
             ("probed:var.pfx".into(), f(50, 750)),
+            ("probed:var.tmpl".into(), f(20, 300)),
             ("probed:var.array".into(), f(70, 1050)),
             ("probed:var.assoc".into(), f(70, 1050)),
             ("probed:fn".into(), f(80, 1200)),
